@@ -28,8 +28,10 @@ MANIFEST = dict(
          'interpreter; results do not depend on other Language objects of the process (tested, not proved). The theorems are generic in '
          'the configuration record and applied to Generated/Gen_Strop.v through boolean side conditions evaluated by vm_compute, so '
          'an edit to properties.yaml, the reserved lists or the failure handlers re-runs the proofs on the new data. Tie: T1 '
-         'regenerates the configuration from the TokenEncoder instances of the working tree and recognises the handler source with '
-         'ast; the hand model of strop is run (extracted OCaml) against Language.filter_id exhaustively on short strings over a '
+         'regenerates the configuration from the TokenEncoder instances of the working tree, TRANSLATES the body of strop into a '
+         'step list (pipeline_is_model, strop_is_regenerated_pipeline) and the C/C++ failure handlers into regex ASTs + template '
+         '(handlers_translated_are_model), shape-pins the methods the steps call; overrides are emitted as data and run through the '
+         'model in both tiers (strop_sound_overrides); the hand model of strop is run (extracted OCaml) against Language.filter_id exhaustively on short strings over a '
          '12-symbol alphabet x id types x 3 languages, on every reserved word with variants and on random longer strings.',
     note='Trusted: Coq kernel; T1 translator (tools/translators/gen_c09.py, regex_tr.py) and the Unicode tables taken from the '
          'running interpreter; extraction (ExtrOcamlBasic only) + ocaml/c09_driver.ml; the hand model Gen/Strop.v of '
@@ -60,7 +62,8 @@ def dec(s: str) -> str:
 class Oracle:
     """built from the configuration dump of the working tree; patterns are evaluated with Python's own `re`"""
 
-    def __init__(self, dump: dict):
+    def __init__(self, dump: dict, shipped: bool = False):
+        self.shipped = shipped
         self.cfg = {}
         for ln, c in dump['langs'].items():
             self.cfg[ln] = {
@@ -87,6 +90,10 @@ class Oracle:
         if got.startswith('err:'):
             if s and self.clean(ln, ty, s) and not (ln == 'cpp' and '__' in s):
                 return 'valid unreserved identifier was rejected'
+            if self.shipped and IDENT.match(s):
+                # "stropping always yields ...": under the shipped configuration every identifier-shaped name (what DSDL can
+                # contain), reserved or not, has to come back as a token; an exception here is a regression, not a refusal
+                return 'identifier-shaped name was rejected under the shipped configuration'
             return None
         t = got[3:]
         if s == '':
@@ -263,7 +270,7 @@ def main(chk: core.Check, replay: typing.Optional[str] = None) -> int:
         chk.violation({'what': 'the stropping configuration of the working tree cannot be loaded (harness dump failed)',
                        'broken': broken, 'translators': res.translator_msgs}, found_input=False)
         return chk.finish()
-    oracle = Oracle(dump)
+    oracle = Oracle(dump, shipped=True)
     missing = sorted(oracle.interpreter_reserved - set(w for w in dump['langs']['py']['reserved'] if isinstance(w, str)))
     if missing:
         broken.append('Python reserved list lacks keywords/builtins of the interpreter: %s' % ', '.join(missing[:12]))
